@@ -430,6 +430,10 @@ def bundle(cls: type) -> Bundle:
             # Special-case the upper-cased `Roles`, as it'll often be a class-def
             setattr(bundle, "roles", val)
         elif isinstance(val, Role):
+            if val.name is None:
+                # Roles made without a name (`Host, Device = h.Roles(2)`) are called what the class body calls them.
+                # Left unnamed they all compare equal, and every role-directed Signal takes the instance for its source.
+                val.name = key
             roles_dict[key] = val
         elif is_bundle_attr(val):
             setattr(bundle, key, val)
